@@ -20,12 +20,12 @@ for pid in allp:
         continue
     checks.append(dict(
         property_id=pid,
-        quick_cmd=f"./check {pid} --tier quick",
-        thorough_cmd=f"./check {pid} --tier thorough",
+        quick_cmd=f"/verif/check {pid} --tier quick",
+        thorough_cmd=f"/verif/check {pid} --tier thorough",
         evidence_file=f"/verif/evidence/{pid}.json",
-        replay_cmd_template=f"./check {pid} --replay {{path}}",
+        replay_cmd_template=f"/verif/check {pid} --replay {{path}}",
         engine="lean4-proof+correspondence",
-        level_claimed=dict(category=P.get("level", "proof"), text=P["level_text"], design_ref=P.get("design_ref", "DESIGN.md section 8")),
+        level_claimed=dict(category=P.get("level", "proof"), text=P["level_text"], design_ref=P.get("design_ref", "DESIGN.md sections 0.0, 0.2, 0.a (as built); section 8 (plan for this property)")),
         level_note=P["level_note"],
         technique=P.get("technique", "Lean 4 theorems over a hand-written executable model; model tied to the C code by a differential correspondence check (C vs spec vs model) on every run"),
     ))
@@ -33,8 +33,8 @@ claimed = {c["property_id"] for c in checks}
 na = [dict(property_id=p, reason=props.NOT_APPLICABLE.get(p, "not yet claimed: model and theorems for this property are still under construction")) for p in allp if p not in claimed]
 man = dict(
     version=1,
-    setup_cmd="cd /verif/lean && lake build 2>&1 | tail -3",
-    hooks=dict(guard="COLLECTIONS_C_VERIF", enable="no hook is needed: the harness #includes the library sources into shim translation units (harness/shim_*.c) and injects allocators through the public conf structs",
+    setup_cmd="cd /verif && python3 tools/setup.py",
+    hooks=dict(guard="COLLECTIONS_C_VERIF", enable="reserved name only, it occurs nowhere in /repo or /verif/harness — no hook is needed: the harness #includes the library sources into shim translation units (harness/shim_*.c) and injects allocators through the public conf structs",
                baseline_off_cmd="(test -f /repo/_build/build.ninja || cmake -G Ninja -S /repo -B /repo/_build >/dev/null) && cmake --build /repo/_build >/dev/null && ctest --test-dir /repo/_build -j8",
                source_commits=[], add_only=True),
     engines=[dict(name="lean4-proof+correspondence", path="/verif/check", serves_properties=[c["property_id"] for c in checks],
